@@ -15,3 +15,6 @@ func RaceErrors() int              { return 0 }
 func RaceAcquire(p *byte)          {}
 func RaceRelease(p *byte)          {}
 func RaceReleaseMerge(p *byte)     {}
+
+func RaceReadRange(b []byte)  {}
+func RaceWriteRange(b []byte) {}
